@@ -16,6 +16,7 @@ class Prop:
     RULE = ""
     KF = {}                # kf class number -> known-finding id
     NEEDS_HARNESS = True
+    HARNESS_BINS = ("scan",)
 
     def translators(self, ctx):
         """Regenerate .v files from /repo. Return list of problems (strings)."""
@@ -140,7 +141,7 @@ def run_check(prop, tier, seed, replay=None):
     # 3. harness
     results, logs = [], ""
     if prop.NEEDS_HARNESS:
-        okh, outh, binp = core.harness_build()
+        okh, outh, binp = core.harness_build(prop.HARNESS_BINS)
         if not okh:
             broken.append("harness does not build against /repo: " + outh[-1500:])
         ctx.binp = binp if okh else None
